@@ -912,6 +912,9 @@ def rule_r4_any_all(body, log, where):
         bar1 = e - 1
         bar2 = body.index('|', bar1 + 1)
         param = body[bar1 + 1:bar2].strip()
+        mt = re.match(r'^(\w+)\s*:\s*\S.*$', param)
+        if mt:
+            param = mt.group(1)  # `|x: &T| E`: a `for` pattern takes no type annotation
         expr = body[bar2 + 1:close].strip()
         rstart = _receiver_start(body, kind, s)
         recv = body[rstart:s].strip()
